@@ -24,7 +24,8 @@ SetTarget == /\ phase = "link" /\ Unlinked # {}
 Finish == phase = "link" /\ Unlinked = {} /\ phase' = "done" /\ UNCHANGED <<tree, deref>>
 Next == Add \/ StartLinking \/ SetTarget \/ Finish
 Spec == Init /\ [][Next]_vars
-RT == phase = "done" => RoundTrip(tree, deref)
-PF == phase = "done" => ParentsFirst(tree, deref)
+Claimed == phase = "done" /\ (deref => Acyclic(tree))        \* dereferencing a cyclic link graph is outside the property
+RT == Claimed => RoundTrip(tree, deref)
+PF == Claimed => ParentsFirst(tree, deref)
 Emit == (phase = "done" /\ ~deref) => PrintT(<<"BEH", ToJson(tree)>>)
 =============================================================================
